@@ -435,6 +435,7 @@ pub fn exec(plan: &ConcPlan) -> RunOut {
     let mut tried = 0u32;
     let mut matched: Option<Model> = None;
     let mut state_mismatch: Option<String> = None;
+    let mut state_mismatch_props: Vec<String> = Vec::new();
     let mut half_created = false;
     {
         let wref = &mut w;
@@ -455,6 +456,7 @@ pub fn exec(plan: &ConcPlan) -> RunOut {
                 true
             } else {
                 state_mismatch = Some(vs[0].msg.clone());
+                state_mismatch_props = vs[0].props.clone();
                 false
             }
         };
@@ -513,7 +515,17 @@ pub fn exec(plan: &ConcPlan) -> RunOut {
                 out.violations.push(viol(&["C03", "C01", "C07"], "conc.double_accept", format!("two overlapping AddVersion requests of client {c} were both accepted on parent {p}; {why}; batch: {}", desc(&live))));
             } else {
                 let props: &[&str] = if live.iter().any(|d| matches!(d.req, Req::AddSnapshot { .. } | Req::GetSnapshot { .. })) { &["C03", "C11"] } else { &["C03"] };
-                out.violations.push(viol(props, "conc.not_linearizable", format!("{why}; batch: {}; all requests incl. those failed behind an injected stall: {}", desc(&live), all)));
+                let mut v = viol(props, "conc.not_linearizable", format!("{why}; batch: {}; all requests incl. those failed behind an injected stall: {}", desc(&live), all));
+                // when the responses are explainable but the stored state is not, the state oracle
+                // that failed names the further properties concerned (e.g. payload bytes: C06)
+                if tried > 0 {
+                    for p in &state_mismatch_props {
+                        if !v.props.contains(p) {
+                            v.props.push(p.clone());
+                        }
+                    }
+                }
+                out.violations.push(v);
             }
         }
     }
